@@ -75,6 +75,7 @@ extern "C" void h_lut(void) {
   if (ok) {
     uint32_t r = nondet_u32(); verif_assume(r < P);
     verif_assert(dec.lut_table_.size() == P && dec.probability_table_.size() == n, "table sizes");
+    verif_assert(sizeof(dec.lut_table_[0]) * 8 >= 18, "a look-up table entry can hold every symbol id of the raw scheme (up to 18 bits)");
     const uint32_t s = dec.lut_table_[r];
     verif_assert(s < n, "slot maps to an existing symbol");
     verif_assert(dec.probability_table_[s].prob == probs[s], "probability table equals the input");
